@@ -2,6 +2,7 @@ package props
 
 import (
 	"go/types"
+	"strings"
 
 	"bifrostverify/an"
 
@@ -11,6 +12,10 @@ import (
 const hoPkg = "link/hold-open"
 
 func c33(c *an.Check) {
+	// the handler's bookkeeping follows one request: EstablishLinkWithPeer directives with different source or target are
+	// never merged, and the only values attached to such a directive are links (the address-dialing sub-resolvers attach none)
+	equivCheck(c, func(f *ssa.Function) bool { return strings.Contains(an.FuncName(f), "link.establishLinkWithPeer") })
+	establishLinkValuesAreLinks(c)
 	p := c.P
 	T := "establishLinkHandler"
 	rigidF, cntF, refF, mtxF := fv(c, hoPkg, T, "rigidRef"), fv(c, hoPkg, T, "valCount"), fv(c, hoPkg, T, "ref"), fv(c, hoPkg, T, "mtx")
@@ -136,4 +141,37 @@ func init() {
 		Explain:     "Decides on SSA: (LOCKSET) valCount, rigidRef and ref of the hold-open handler are touched only under its mutex and Controller.cleanupRefs only under the controller mutex; (ATOMIC) the asynchronously acquired strong reference is stored only in a critical section that itself re-checks 'no reference held' and 'at least one link exists'; the reference is released only when one is held and (on removal) the link count reached zero, and the slot is cleared before unlocking; the counter is updated exactly once per add/remove notification.",
 		NotCov:      "quiescent equality (reference held ⇔ links exist) over all schedules, and the directive instance's own reference counting.",
 		Assumptions: commonAssumptions})
+}
+
+// establishLinkValuesAreLinks: the tptaddr controller's resolver for EstablishLinkWithPeer only spawns dial requests; its
+// transform never attaches a value to the directive (every return of it says ok=false). The hold-open handler decrements
+// its link counter for any removed value, so a placeholder value would release the reference while links exist.
+func establishLinkValuesAreLinks(c *an.Check) {
+	p := c.P
+	res := p.Func("tptaddr/controller", "establishLinkResolver", "Resolve")
+	n, bad := 0, ""
+	if res != nil {
+		for _, g := range an.WithClosures(res)[1:] {
+			// the value transform: func(ctx, AttachedValue) (struct{}, func(), bool, error)
+			sig := g.Signature
+			if sig.Results().Len() != 4 || sig.Results().At(2).Type().String() != "bool" {
+				continue
+			}
+			n++
+			for _, b := range g.Blocks {
+				if ret, ok := b.Instrs[len(b.Instrs)-1].(*ssa.Return); ok {
+					k, isK := ret.Results[2].(*ssa.Const)
+					if !isK || k.Value == nil || k.Value.String() != "false" {
+						bad = "the dial sub-resolver's transform attaches a (placeholder) value to the EstablishLinkWithPeer directive: removing it later is counted by hold-open as a lost link"
+					}
+				}
+			}
+		}
+	}
+	c.Require(bad == "" && n >= 1, "WHO", "tptaddr establish-link resolver attaches no values to the link request", res, "", n, "transform returns ok=false", func() string {
+		if bad != "" {
+			return bad
+		}
+		return "transform not found (anchor drift)"
+	}())
 }
